@@ -233,7 +233,11 @@ class Gen:
             s2 = ish if ax == 0 or r.random() < 0.7 else [1]
             n = int(np.prod(s2))
             arrs.append({"sh": list(s2), "v": [r.randint(-sh[ax], sh[ax] - 1) for _ in range(n)]})
-        return {"t": "adv", "arrs": arrs}
+        ix = {"t": "adv", "arrs": arrs}
+        x = r.random()
+        if x < 0.45:
+            ix["as"] = r.choice(["list", "tuple", "tensor"])
+        return ix
 
     def mask_index(self, sh):
         r = self.rng
@@ -555,7 +559,7 @@ class Gen:
         nd = A.ndim
         h = self.new()
         f = r.choice(self.p.get("views", ["getitem", "getitem", "reshape", "T", "transpose", "swapaxes", "moveaxis",
-                                           "squeeze", "expand_dims", "ravel", "diag"]))
+                                           "squeeze", "expand_dims", "ravel", "diag", "broadcast_to"]))
         s = {"k": "op", "h": h, "f": f, "a": [{"h": a}]}
         if f == "getitem":
             s["ix"] = self.basic_index(sh)
@@ -599,7 +603,13 @@ class Gen:
                 pass
                 return False
         elif f == "broadcast_to":
-            s["sh"] = [r.choice([1, 2])] + sh
+            # stretch axes of length 1 (inner ones too) and/or prepend an axis
+            tgt = [r.choice([2, 3]) if (d == 1 and r.random() < 0.7) else d for d in sh]
+            if r.random() < 0.5 or tgt == sh:
+                tgt = [r.choice([1, 2])] + tgt
+            if int(np.prod(tgt)) > MAXSIZE:
+                return False
+            s["sh"] = tgt
         vc = self.const[a]
         if f in ("reshape", "transpose", "swapaxes", "squeeze", "expand_dims", "ravel", "moveaxis") and \
                 r.random() < self.p.get("p_kw_const_view", 0.0) and A.dtype.kind == "f":
